@@ -320,6 +320,62 @@ Proof.
   all: rewrite quad_wn_out in H; auto; try discriminate; tauto.
 Qed.
 
+(** ** simple polygons: a positively oriented triangle, or a quadrilateral one of whose diagonals
+    splits it into two positively oriented triangles (convex or with one reflex corner).  Their
+    crossing number is still an indicator; this is what decompose_column's centre-based
+    subdivisions produce whatever the position of the straight nodes. *)
+Lemma quad_diag_online a b c d p : 0 < orient a b c -> 0 < orient a c d -> orient a c p = 0 ->
+  wn [a; b; c; d] p = 0%Z \/ wn [a; b; c; d] p = 1%Z.
+Proof.
+  destruct a as [ax ay], b as [bx b_y], c as [cx cy], d as [dx dy], p as [px py].
+  intros H1 H2 E.
+  cases_tac; unfold orient in *; cbn [fst snd] in *; try first [left; reflexivity | right; reflexivity | exfalso; nra].
+  exfalso. destruct (Rtotal_order cy ay) as [L|[L|L]];
+    [nra|subst cy; assert (0 < b_y - ay) by lra; assert (0 < dy - ay) by lra; nra|nra].
+Qed.
+Lemma quad_diag_wn_01 a b c d p : 0 < orient a b c -> 0 < orient a c d ->
+  wn [a; b; c; d] p = 0%Z \/ wn [a; b; c; d] p = 1%Z.
+Proof.
+  intros H1 H2. rewrite wn4_split.
+  destruct (tri_wn_01 a b c p H1) as [E1|E1]; [rewrite E1; apply (tri_wn_01 a c d p H2)|].
+  destruct (tri_wn_01 a c d p H2) as [E2|E2]; [rewrite E1, E2; right; reflexivity|].
+  (* both triangles claim p: then p is on the diagonal *)
+  rewrite <- wn4_split. apply quad_diag_online; auto.
+  destruct (Rtotal_order (orient a c p) 0) as [L|[L|L]]; auto; exfalso.
+  - rewrite (tri_wn_out a c d p H2) in E2 by auto. discriminate.
+  - rewrite (tri_wn_out a b c p H1) in E1; [discriminate|]. right. right. rewrite orient_swap. lra.
+Qed.
+Definition simple_poly (l : list pt) : Prop :=
+  match l with
+  | [a; b; c] => 0 < orient a b c
+  | [a; b; c; d] => (0 < orient a b c /\ 0 < orient a c d) \/ (0 < orient b c d /\ 0 < orient b d a)
+  | _ => False
+  end.
+Lemma simple_wn_01 l p : simple_poly l -> wn l p = 0%Z \/ wn l p = 1%Z.
+Proof.
+  destruct l as [|a [|b [|c [|d [|x r]]]]]; cbn [simple_poly]; try tauto.
+  - apply tri_wn_01.
+  - intros [[H1 H2]|[H1 H2]]; [apply quad_diag_wn_01; auto|].
+    rewrite <- wn4_rot. apply quad_diag_wn_01; auto.
+Qed.
+Lemma good_simple l : good_poly l -> simple_poly l.
+Proof.
+  destruct l as [|a [|b [|c [|d [|x r]]]]]; cbn [good_poly simple_poly]; try tauto.
+  intros (H1 & H2 & H3 & H4). left. split; auto. unfold orient in *. lra.
+Qed.
+Definition children_simple cs c istart (e : entry) : Prop := Forall (fun ch => simple_poly (map (vpos cs c istart) ch)) e.
+Definition all_centre (e : entry) : bool :=
+  forallb (fun ch => existsb (fun v => match v with Centre => true | _ => false end) ch) e.
+(** obligation of a decomposition entry all of whose children contain the centre node: every side
+    of the parent has the centre strictly on its left -- nothing else, wherever the straight nodes are *)
+Definition entry_simple_ok (nn : nat) (e : entry) : Prop :=
+  forall cs c istart, length cs = nn -> (istart < nn)%nat -> interior cs c -> children_simple cs c istart e.
+Ltac entry_simple_tac :=
+  let cs := fresh "cs" in let istart := fresh "istart" in let H := fresh "H" in let Hi := fresh "Hi" in
+  let Hin := fresh "Hin" in
+  intros cs [? ?] istart H Hi Hin; destruct_len cs H; crunch_in Hin; forall_inv_all;
+  each_rotation istart ltac:(crunch; repeat (apply Forall_cons; [first [lra | left; split; lra | right; split; lra]|]); apply Forall_nil).
+
 (** ** the per-entry obligation: for a strictly convex counter-clockwise parent, a centre node
     strictly inside and (for the entries that put the centre node into a quadrilateral) beyond
     the lines joining the mid-points of adjacent sides, every child is a positively oriented
